@@ -165,6 +165,7 @@ var c09SignerClasses = []string{"never-listed", "kid-lie", "proposed-only", "rem
 	"deactivated-controller", "inactive-controller", "ex-controller", "controller-of-controller", "non-controller-doc", "deactivated-self",
 	"removed-key+proxy", "other-rel-only+proxy", "deactivated-controller+proxy", "ex-controller+proxy", "never-listed+proxy",
 	"own-key-not-controller+proxy", "inactive-controller+proxy", "deactivated-self+proxy", "update-unknown-did",
+	"forked-deactivated-self", "forked-deactivated-self+proxy", "forked-deactivated-controller", "forked-deactivated-controller+proxy",
 	"proposed-controller", "proposed-controller", "embedded-controller-key"}
 
 var c09CreateClasses = []string{"create-foreign-key", "create-takeover", "create-kid-no-embed", "create-sig-mismatch"}
@@ -172,10 +173,12 @@ var c09CreateClasses = []string{"create-foreign-key", "create-takeover", "create
 var c09DocClasses = []string{"vm-no-fragment", "vm-foreign-prefix", "vm-dup-id", "vm-thumb-mismatch", "vm-thumb-mismatch-jwkkid",
 	"svc-no-fragment", "svc-foreign-prefix", "svc-dup-id", "svc-dup-type",
 	"rel-embedded-foreign-prefix", "rel-embedded-thumb-mismatch", "rel-embedded-no-fragment", "rel-embedded-valid",
+	"rel-embedded-listed-same", "rel-embedded-listed-other-key", "rel-embedded-listed-other-controller", "rel-embedded-listed-other-type",
+	"rel-embedded-dup-same", "rel-embedded-dup-other-key", "rel-embedded-dup-other-controller", "rel-embedded-dup-other-type",
 	"core-no-context", "core-vm-no-type", "core-vm-no-controller", "core-svc-no-type", "core-svc-no-endpoint"}
 
 var c09Ops = []string{"create", "create", "create", "addkey", "addkey", "addkey", "rmkey", "rotate", "rotate", "rotate", "rotate",
-	"demote", "demote", "demote", "promote", "ctrl", "ctrl", "ctrl", "ctrl", "ctrl", "svc", "svc", "deact", "deact"}
+	"demote", "demote", "demote", "promote", "ctrl", "ctrl", "ctrl", "ctrl", "ctrl", "svc", "svc", "deact", "deact", "fork", "fork"}
 
 func c09GenEvent(t *rapid.T) c09Event {
 	ev := c09Event{
@@ -273,6 +276,10 @@ type c09DID struct {
 	rejRefs   []hash.SHA256Hash
 	rejHashes []hash.SHA256Hash
 	everKeys  []int // keys that were listed in any accepted version, first appearance order
+	// dead: the DID was deactivated by one branch of a fork; it stays deactivated whatever its merged document lists.
+	// forkRefs: the other source transactions of the merged latest version.
+	dead     bool
+	forkRefs []hash.SHA256Hash
 }
 
 func (d *c09DID) latest() *c09Ver { return &d.vers[len(d.vers)-1] }
@@ -346,6 +353,9 @@ func (w *c09World) freshKey() int {
 func (w *c09World) controllers(d *c09DID) []int {
 	v := d.latest().spec
 	var out []int
+	if d.dead {
+		return nil
+	}
 	if len(v.Ctrl) == 0 {
 		if len(v.capKeys()) > 0 {
 			out = append(out, d.idx)
@@ -366,12 +376,15 @@ func (w *c09World) controllers(d *c09DID) []int {
 	return out
 }
 
+// deact: deactivated per the record - by content of the latest version, or for good by one branch of a fork.
+func (w *c09World) deact(d *c09DID) bool { return d.dead || d.latest().spec.deactivated() }
+
 func (w *c09World) active(c int, visiting map[int]bool) bool {
 	if visiting[c] {
 		return false
 	}
 	l := w.dids[c].latest().spec
-	if l.deactivated() {
+	if w.deact(w.dids[c]) {
 		return false
 	}
 	if len(l.Ctrl) == 0 {
@@ -397,7 +410,7 @@ func (w *c09World) active(c int, visiting map[int]bool) bool {
 // only situation in which the code under test can establish activity from a single source transaction.
 func (w *c09World) simple(c int) bool {
 	l := w.dids[c].latest().spec
-	if len(l.capKeys()) == 0 {
+	if len(l.capKeys()) == 0 || w.dids[c].dead {
 		return false
 	}
 	if len(l.Ctrl) == 0 {
@@ -478,7 +491,9 @@ func (w *c09World) signers(d *c09DID) (legit []c09Signer, odd []c09Signer, unaut
 			switch {
 			case hd.idx == d.idx:
 				switch {
-				case l.deactivated():
+				case hd.dead:
+					add("forked-deactivated-self", s, listed)
+				case w.deact(hd):
 					add("deactivated-self", s, listed)
 				case isCap:
 					add("own-key-not-controller", s, listed)
@@ -489,7 +504,9 @@ func (w *c09World) signers(d *c09DID) (legit []c09Signer, odd []c09Signer, unaut
 				}
 			case c09In(declared, hd.idx):
 				switch {
-				case l.deactivated():
+				case hd.dead:
+					add("forked-deactivated-controller", s, listed)
+				case w.deact(hd):
 					add("deactivated-controller", s, listed)
 				case !c09In(ctrl, hd.idx):
 					add("inactive-controller", s, listed)
@@ -615,6 +632,47 @@ func (w *c09World) twistDoc(doc map[string]any, id, other, class string, sel uin
 		addRel(vm(id+"#"+keys[k2].frag, k1))
 	case "rel-embedded-no-fragment":
 		addRel(vm(id, k1))
+	case "rel-embedded-listed-same", "rel-embedded-listed-other-key", "rel-embedded-listed-other-controller", "rel-embedded-listed-other-type":
+		// a relationship embeds a complete method object that carries the id of a verificationMethod entry: with identical
+		// content that is equivalent to a reference (legitimate), with any difference there are two methods under one id
+		l := c09List(doc, "verificationMethod")
+		if len(l) == 0 || sel%8 == 7 {
+			addVM(vm(id+"#"+keys[k1].frag, k1))
+			l = c09List(doc, "verificationMethod")
+		}
+		m := jsonmut.Clone(l[int(sel/2)%len(l)]).(map[string]any)
+		switch class {
+		case "rel-embedded-listed-other-key":
+			m["publicKeyJwk"] = c09JWKMap(k2)
+		case "rel-embedded-listed-other-controller":
+			m["controller"] = other
+		case "rel-embedded-listed-other-type":
+			m["type"] = "EcdsaSecp256k1VerificationKey2019"
+		}
+		addRel(m)
+	case "rel-embedded-dup-same", "rel-embedded-dup-other-key", "rel-embedded-dup-other-controller", "rel-embedded-dup-other-type":
+		// the same (well-formed, new) id embedded twice, in one relationship or in two: identical content is one method
+		// mentioned twice (no verdict demanded), different content is two methods under one id
+		first := vm(id+"#"+keys[k1].frag, k1)
+		second := vm(id+"#"+keys[k1].frag, k1)
+		switch class {
+		case "rel-embedded-dup-other-key":
+			second["publicKeyJwk"] = c09JWKMap(k2)
+		case "rel-embedded-dup-other-controller":
+			second["controller"] = other
+		case "rel-embedded-dup-other-type":
+			second["type"] = "EcdsaSecp256k1VerificationKey2019"
+		}
+		if sel%4 >= 2 {
+			first, second = second, first
+		}
+		addRel(first)
+		if sel%2 == 0 {
+			addRel(second)
+		} else {
+			other2 := c09Rels[(int(sel)+1+int(sel/8)%(len(c09Rels)-1))%len(c09Rels)].name
+			doc[other2] = append(c09List(doc, other2), second)
+		}
 	case "rel-embedded-valid":
 		// not a violation: a well-formed verification method that is embedded instead of referenced (no verdict demanded;
 		// when accepted, the independent checker looks at what became resolvable)
@@ -799,6 +857,17 @@ func c09WellFormed(doc map[string]any, id string) (rule string, detail string) {
 		}
 		return "", ""
 	}
+	// one id, one method: every method object (listed or embedded) under an id must have the same content
+	byID := map[string]string{}
+	oneMethod := func(m map[string]any) (string, bool) {
+		vid, _ := m["id"].(string)
+		enc := string(jsonmut.Encode(m))
+		if prev, ok := byID[vid]; ok && prev != enc {
+			return vid, false
+		}
+		byID[vid] = enc
+		return vid, true
+	}
 	seen := map[string]bool{}
 	for _, e := range c09List(doc, "verificationMethod") {
 		m, ok := e.(map[string]any)
@@ -813,12 +882,16 @@ func c09WellFormed(doc map[string]any, id string) (rule string, detail string) {
 			return "vm-dup-id", vid
 		}
 		seen[vid] = true
+		oneMethod(m)
 	}
 	for _, r := range c09Rels {
 		for _, e := range c09List(doc, r.name) {
 			if m, ok := e.(map[string]any); ok {
 				if rule, d := checkVM(m, "rel-embedded"); rule != "" {
 					return rule, r.name + ": " + d
+				}
+				if vid, ok := oneMethod(m); !ok {
+					return "vm-id-not-unique", r.name + ": " + vid
 				}
 			}
 		}
@@ -1100,6 +1173,13 @@ type c09Offer struct {
 	mustAccept bool
 	class      string
 	keys       []int
+	tick       int  // when > 0: the (already reserved) signing time slot, instead of the next one
+	noRecord   bool // the caller keeps the record itself (fork branches)
+	// set by offer
+	ref   hash.SHA256Hash
+	clock uint32
+	ph    hash.SHA256Hash
+	at    time.Time
 }
 
 func c09SafeErr(fn func() error) (err error, panicked bool) {
@@ -1120,10 +1200,15 @@ func c09Short(s string) string {
 
 func (w *c09World) offer(o *c09Offer) bool {
 	x := w.x
-	w.tick++
-	at := time.Unix(1609459200, 0).Add(time.Duration(w.tick) * 10 * time.Second).UTC()
+	tick := o.tick
+	if tick == 0 {
+		w.tick++
+		tick = w.tick
+	}
+	at := time.Unix(1609459200, 0).Add(time.Duration(tick) * 10 * time.Second).UTC()
 	tx, clock := w.sign(o.payload, o.prevs, at, o.signKey, o.kid, o.embed)
 	ph := hash.SHA256Sum(o.payload)
+	o.ref, o.clock, o.ph, o.at = tx.Ref(), clock, ph, at
 	pend := c09Pending{target: o.target, ref: tx.Ref(), ph: ph, at: at, keys: o.keys}
 	qs := w.queries(w.c09View, pend, false)
 	before := c09Eval(qs)
@@ -1244,6 +1329,9 @@ func (w *c09World) offer(o *c09Offer) bool {
 	}
 	if !accepted {
 		return false
+	}
+	if o.noRecord {
+		return true
 	}
 
 	// what became resolvable
@@ -1412,7 +1500,8 @@ func (w *c09World) create(i int, ev c09Event) {
 		w.mutate(o, doc, ev)
 	case isDoc:
 		if w.twistDoc(doc, id, w.otherDID(id), adv, ev.S) {
-			o.class, o.mustAccept, o.specExact = adv, false, false
+			// an embedded copy of a listed method is equivalent to a reference: such a document must stay acceptable
+			o.class, o.mustAccept, o.specExact = adv, o.mustAccept && adv == "rel-embedded-listed-same", false
 			o.mustReject = c09DocSig(adv)
 		}
 	case adv == "create-foreign-key":
@@ -1457,8 +1546,13 @@ func (w *c09World) create(i int, ev c09Event) {
 
 // c09DocSig: one signature per rule; the three embedded-method variants share a root cause, hence a signature.
 func c09DocSig(class string) string {
-	if class == "rel-embedded-valid" {
-		return "" // well-formed: nothing demanded
+	switch class {
+	case "rel-embedded-valid", "rel-embedded-dup-same", "rel-embedded-listed-same":
+		return "" // well-formed: no refusal demanded
+	case "rel-embedded-listed-other-key", "rel-embedded-listed-other-controller", "rel-embedded-listed-other-type":
+		return "accepted-invalid-doc:rel-embedded-conflicts-listed-vm"
+	case "rel-embedded-dup-other-key", "rel-embedded-dup-other-controller", "rel-embedded-dup-other-type":
+		return "accepted-invalid-doc:rel-embedded-dup-id"
 	}
 	if strings.HasPrefix(class, "rel-embedded-") {
 		return "accepted-invalid-doc:rel-embedded-vm"
@@ -1502,7 +1596,7 @@ func (w *c09World) update(i int, ev c09Event) {
 	if ev.D%8 != 7 { // mostly aim at a DID that is not deactivated itself
 		var alive []*c09DID
 		for _, c := range w.dids {
-			if !c.latest().spec.deactivated() {
+			if !w.deact(c) {
 				alive = append(alive, c)
 			}
 		}
@@ -1669,9 +1763,15 @@ func (w *c09World) update(i int, ev c09Event) {
 		o.signKey = s.key
 		holderID := d.id
 		refs := []hash.SHA256Hash{d.latest().ref}
+		if ev.B%2 == 0 {
+			refs = append(refs, d.forkRefs...) // a merged latest version has several source transactions
+		}
 		if s.holder >= 0 && s.holder != d.idx {
 			holderID = w.dids[s.holder].id
 			refs = append(refs, w.dids[s.holder].latest().ref)
+			if ev.B%4 < 2 {
+				refs = append(refs, w.dids[s.holder].forkRefs...)
+			}
 		} else if s.holder >= 0 {
 			holderID = w.dids[s.holder].id
 		}
@@ -1719,7 +1819,7 @@ func (w *c09World) update(i int, ev c09Event) {
 			w.mutate(o, doc, ev)
 		} else if adv != "" {
 			if w.twistDoc(doc, d.id, w.otherDID(d.id), adv, ev.S) {
-				o.class, o.mustAccept, o.specExact = adv, false, false
+				o.class, o.mustAccept, o.specExact = adv, o.mustAccept && adv == "rel-embedded-listed-same", false
 				o.mustReject = c09DocSig(adv)
 			}
 		}
@@ -1859,6 +1959,180 @@ func (w *c09World) update(i int, ev c09Event) {
 	w.offer(o)
 }
 
+// fork is the one bounded exception to "histories are conflict-free": a self-controlled document A gets two concurrent
+// successors of its latest version a1 - a deactivation a2 and, signed later, an update a3 that adds a key Kx - which arrive
+// in either order and are merged by the store. A stays deactivated ("once deactivated is always deactivated") although the
+// merged document lists Kx and the old key. Both branches succeed a1 and are signed by a controller of a1, so the record
+// authorises both (their acceptance is only demanded for the one that arrives first, which is an ordinary update).
+// Afterwards the record says: A is deactivated and authorises nothing, whatever its merged document lists. Documents that
+// name A as controller (one is created if there is none), and A itself, are then offered updates signed with Kx and with
+// the old key, kid A#key, referring to a2, a3 or both.
+func (w *c09World) fork(i int, ev c09Event) {
+	x := w.x
+	keys := c09Keys()
+	var cands, named []*c09DID
+	for _, c := range w.dids {
+		s := c.latest().spec
+		if w.deact(c) || len(s.capKeys()) == 0 || !(len(s.Ctrl) == 0 || (len(s.Ctrl) == 1 && s.Ctrl[0] == c.idx)) {
+			continue
+		}
+		cands = append(cands, c)
+		for _, o := range w.dids {
+			if o.idx != c.idx && c09In(o.latest().spec.Ctrl, c.idx) {
+				named = append(named, c)
+				break
+			}
+		}
+	}
+	if len(cands) == 0 {
+		ev.Op = "rotate"
+		w.update(i, ev)
+		return
+	}
+	a := cands[int(ev.D)%len(cands)]
+	if len(named) > 0 && ev.A%4 != 3 {
+		a = named[int(ev.D)%len(named)]
+	}
+	a1 := *a.latest()
+	capKeys := a1.spec.capKeys()
+	ka := capKeys[int(ev.S)%len(capKeys)]
+	kx := w.freshKey()
+	specAdd := a1.spec.clone()
+	specAdd.Keys = append(specAdd.Keys, c09Use{K: kx, Rel: c09Cap | c09Asr})
+	prevs := []hash.SHA256Hash{a1.ref}
+	if ev.Head && !w.head.Equals(a1.ref) {
+		prevs = append(prevs, w.head)
+	}
+	if ev.Rot%2 == 1 && len(prevs) == 2 {
+		prevs[0], prevs[1] = prevs[1], prevs[0]
+	}
+	tDeact, tAdd := w.tick+1, w.tick+2 // the deactivation is signed before the update that adds the key
+	w.tick += 2
+	kidA := func(k int) string { return a.id + "#" + keys[k].frag }
+	oDeact := &c09Offer{label: fmt.Sprintf("event %d fork:deactivate", i), op: "deact", class: "fork-deactivate", di: a.idx, target: a.id, newKey: -1,
+		spec: c09Spec{}, specExact: true, payload: w.encode(w.rawDoc(a.id, c09Spec{})), signKey: ka, kid: kidA(ka), embed: -1, prevs: prevs, tick: tDeact, keys: []int{ka, kx}}
+	oAdd := &c09Offer{label: fmt.Sprintf("event %d fork:add-key", i), op: "addkey", class: "fork-add-key", di: a.idx, target: a.id, newKey: -1,
+		spec: specAdd, specExact: true, payload: w.encode(w.rawDoc(a.id, specAdd)), signKey: ka, kid: kidA(ka), embed: -1, prevs: prevs, tick: tAdd, keys: []int{ka, kx}}
+	first, second := oDeact, oAdd
+	if ev.B%2 == 1 {
+		first, second = oAdd, oDeact
+		x.Class("fork:key-adding-branch-arrives-first")
+	} else {
+		x.Class("fork:deactivation-arrives-first")
+	}
+	first.mustAccept = true // an ordinary legitimate update of a self-controlled document
+	second.noRecord = true  // the second branch names a1, not the latest version: a fork, no verdict demanded
+	x.Class("offer:" + first.class)
+	if !w.offer(first) || w.stop {
+		return
+	}
+	x.Class("offer:" + second.class)
+	if !w.offer(second) {
+		x.Class("fork:second-branch-refused")
+		return
+	}
+	// precondition of everything below: the store merged the branches and keeps A deactivated
+	_, meta, err := w.store.Resolve(did.MustParseDID(a.id), &resolver.ResolveMetadata{AllowDeactivated: true})
+	both := 0
+	if err == nil {
+		for _, st := range meta.SourceTransactions {
+			if st.Equals(oDeact.ref) || st.Equals(oAdd.ref) {
+				both++
+			}
+		}
+	}
+	if err != nil || !meta.Deactivated || both != 2 {
+		x.Class("fork:not-merged-as-expected")
+		w.stop = true
+		return
+	}
+	a.dead = true
+	a.forkRefs = []hash.SHA256Hash{oDeact.ref}
+	if first == oDeact {
+		a.vers = append(a.vers, c09Ver{spec: specAdd, ref: oAdd.ref, ph: oAdd.ph, at: oAdd.at, clock: oAdd.clock})
+	} else {
+		// the key adding branch was recorded as an ordinary version; it stays the "latest" the record refers to
+		a.vers[len(a.vers)-1].spec = specAdd
+	}
+	a.noteKeys(specAdd)
+	x.Class("fork:established")
+	x.NonTrivial()
+
+	// who names A as controller?
+	var targets []*c09DID
+	for _, o := range w.dids {
+		if o.idx != a.idx && c09In(o.latest().spec.Ctrl, a.idx) && !w.deact(o) {
+			targets = append(targets, o)
+		}
+	}
+	if len(targets) == 0 {
+		kb := w.freshKey()
+		bspec := c09Spec{Ctrl: []int{a.idx}, Keys: []c09Use{{K: kb, Rel: c09Asr}}}
+		if ev.A%2 == 1 {
+			bspec.Keys[0].Rel |= c09Cap // B lists a capabilityInvocation key itself but does not control itself
+		}
+		evh := ev
+		evh.Head = true
+		ob := &c09Offer{label: fmt.Sprintf("event %d fork:create-controlled", i), op: "create", class: "legit-create", di: len(w.dids), target: keys[kb].did, newKey: kb,
+			spec: bspec, specExact: true, payload: w.encode(w.rawDoc(keys[kb].did, bspec)), signKey: kb, kid: keys[kb].did + "#" + keys[kb].frag, embed: kb,
+			prevs: w.prevs(evh), mustAccept: true, keys: []int{kb}}
+		x.Class("offer:" + ob.class)
+		if !w.offer(ob) || w.stop {
+			return
+		}
+		targets = append(targets, w.dids[len(w.dids)-1])
+	}
+	if len(targets) > 2 {
+		r := int(ev.D) % len(targets)
+		targets = append(targets[r:], targets[:r]...)[:2]
+	}
+	targets = append(targets, a)
+	attacker := w.freshKey()
+	a2, a3 := oDeact.ref, oAdd.ref
+	type combo struct {
+		key  int
+		refs []hash.SHA256Hash
+		name string
+	}
+	combos := []combo{{kx, []hash.SHA256Hash{a3}, "new-key/a3"}, {kx, []hash.SHA256Hash{a2, a3}, "new-key/a2+a3"}, {kx, []hash.SHA256Hash{a2}, "new-key/a2"},
+		{ka, []hash.SHA256Hash{a2}, "old-key/a2"}, {ka, []hash.SHA256Hash{a3}, "old-key/a3"}, {ka, []hash.SHA256Hash{a3, a2}, "old-key/a3+a2"}}
+	for _, t := range targets {
+		for ci, c := range combos {
+			if w.stop {
+				return
+			}
+			if t == a && ci%3 != int(ev.S)%3 {
+				continue // two offers aimed at A itself are enough
+			}
+			spec := t.latest().spec.clone()
+			if t == a {
+				spec = specAdd.clone()
+			}
+			if _, has := spec.find(attacker); !has {
+				spec.Keys = append(spec.Keys, c09Use{K: attacker, Rel: c09Cap | c09Asr})
+			}
+			if ev.A%3 == 0 && t != a {
+				spec.Ctrl = nil // and take the document out of A's hands
+			}
+			refs := append([]hash.SHA256Hash{}, c.refs...)
+			if t != a {
+				refs = append([]hash.SHA256Hash{t.latest().ref}, refs...)
+			}
+			if ev.Rot >= 2 {
+				for l, r := 0, len(refs)-1; l < r; l, r = l+1, r-1 {
+					refs[l], refs[r] = refs[r], refs[l]
+				}
+			}
+			o := &c09Offer{label: fmt.Sprintf("event %d fork:%s", i, c.name), op: "addkey", class: "forked-deactivated-controller", di: t.idx, target: t.id, newKey: -1,
+				spec: spec, specExact: true, payload: w.encode(w.rawDoc(t.id, spec)), signKey: c.key, kid: kidA(c.key), embed: -1, prevs: refs,
+				mustReject: "accepted-unauthorised:forked-deactivated-controller", keys: []int{attacker, c.key}}
+			x.Class("offer:" + o.class)
+			x.Class("fork-offer:" + c.name)
+			w.offer(o)
+		}
+	}
+}
+
 // ---------------------------------------------------------------------------------------------------------------------
 
 func c09Run(x *h.Ctx, c c09Case) {
@@ -1902,7 +2176,13 @@ func c09Run(x *h.Ctx, c c09Case) {
 			w.create(i, ev)
 		case ev.Op == "create":
 			ev.Op = c09Ops[3+int(ev.A)%(len(c09Ops)-3)]
-			w.update(i, ev)
+			if ev.Op == "fork" {
+				w.fork(i, ev)
+			} else {
+				w.update(i, ev)
+			}
+		case ev.Op == "fork":
+			w.fork(i, ev)
 		default:
 			w.update(i, ev)
 		}
